@@ -47,6 +47,12 @@ func (x *Exec) callValue(st *State, fr *Frame, fnv Value, args []Value, call *ss
 		if c := x.db.Funcs[key]; c != nil {
 			return x.applyContract(st, fr, c, key, sig, nil, append([]Value{recv}, args...), pos)
 		}
+		if im, ok := ifaceModels[key]; ok {
+			if outs := im(x, st, fr, sig, append([]Value{recv}, args...), pos); outs != nil {
+				x.assumed[key+" (built-in model)"] = true
+				return outs
+			}
+		}
 		return x.havocCall(st, fr, key, sig, append([]Value{recv}, args...), pos)
 	}
 	if fnv.Fn != nil {
@@ -56,6 +62,18 @@ func (x *Exec) callValue(st *State, fr *Frame, fnv Value, args []Value, call *ss
 	sig, _ := fnv.T.Underlying().(*types.Signature)
 	if sig == nil {
 		unsupported("call of non-function value")
+	}
+	// call through a package-level function variable (test hooks such as
+	// timeNow): a contract keyed by the variable's name applies
+	if call != nil {
+		if u, ok := call.Value.(*ssa.UnOp); ok {
+			if g, ok := u.X.(*ssa.Global); ok && g.Pkg != nil {
+				key := g.Pkg.Pkg.Path() + "." + g.Name()
+				if c := x.db.Funcs[key]; c != nil {
+					return x.applyContract(st, fr, c, key, sig, nil, args, pos)
+				}
+			}
+		}
 	}
 	x.safetyCheck(st, "nil", mkNot(mkEq(fnv.S, "0")), pos)
 	return x.havocCall(st, fr, "func-value", sig, args, pos)
@@ -164,11 +182,96 @@ func (x *Exec) havocCall(st *State, fr *Frame, key string, sig *types.Signature,
 		x.pureCalls[key] = true
 	}
 	x.bumpAlloc(st)
+	if pure && deterministicKey(key) {
+		if res, ok := x.pureUF(st, key, sig, args); ok {
+			return single(st, res...)
+		}
+	}
 	var res []Value
 	for i := 0; i < sig.Results().Len(); i++ {
 		res = append(res, x.symbolic(st, sig.Results().At(i).Type(), "r."+shortName(key)))
 	}
 	return single(st, res...)
+}
+
+var nondeterministic = []string{"time.Now", "time.Since", "time.Until", "time.After", "time.Tick", "time.NewTimer", "time.NewTicker",
+	"os.", "math/rand.", "crypto/rand.", "context.With", "context.Background", "context.TODO", "reflect.", "(reflect.", "net."}
+
+func deterministicKey(key string) bool {
+	for _, p := range nondeterministic {
+		if strings.HasPrefix(key, p) {
+			return false
+		}
+	}
+	if strings.Contains(key, "logging.") || strings.Contains(key, "prometheus") || strings.Contains(key, "logrus") || strings.Contains(key, "tracing") {
+		return false
+	}
+	return true
+}
+
+func scalarKind(k Kind) bool {
+	switch k {
+	case KBool, KInt, KBV8, KStr, KOpaque, KReal:
+		return true
+	}
+	return false
+}
+
+// pureUF models a deterministic, effect-free callee with scalar arguments and
+// results as an uninterpreted function of its arguments.
+func (x *Exec) pureUF(st *State, key string, sig *types.Signature, args []Value) ([]Value, bool) {
+	if len(args) == 0 || sig.Results().Len() == 0 {
+		return nil, false
+	}
+	var sorts, terms []string
+	for _, a := range args {
+		if !scalarKind(a.K) {
+			return nil, false
+		}
+		sorts = append(sorts, x.tc.sortOf(a.T))
+		terms = append(terms, a.S)
+	}
+	var res []Value
+	for i := 0; i < sig.Results().Len(); i++ {
+		rt := sig.Results().At(i).Type()
+		rk := x.tc.kindOf(rt)
+		if !scalarKind(rk) && rk != KIface {
+			return nil, false
+		}
+		name := fmt.Sprintf("pure.%s.%d", sanitize(key), i)
+		x.d.fun(name, sorts, x.tc.sortOf(rt))
+		v := Value{K: rk, T: rt, S: "(" + name + " " + strings.Join(terms, " ") + ")"}
+		x.assumeWF(st, v)
+		res = append(res, v)
+	}
+	return res, true
+}
+
+// freshLike: a fresh unconstrained value of the same shape (ghost variables).
+func (x *Exec) freshLike(st *State, v Value, name string) Value {
+	switch v.K {
+	case KStruct, KTuple:
+		out := Value{K: v.K, T: v.T}
+		for i, f := range v.Fields {
+			out.Fields = append(out.Fields, x.freshLike(st, f, fmt.Sprintf("%s.%d", name, i)))
+		}
+		return out
+	case KSlice:
+		return x.symbolic(st, v.T, name)
+	case KBool:
+		return Value{K: KBool, T: v.T, S: x.d.fresh(name, sBool)}
+	case KBV8:
+		return Value{K: KBV8, T: v.T, S: x.d.fresh(name, sBV8)}
+	case KInt:
+		return Value{K: KInt, T: v.T, S: x.d.fresh(name, sInt)}
+	}
+	sort := sInt
+	if v.T != nil {
+		sort = x.tc.sortOf(v.T)
+	} else if v.Sort != "" {
+		sort = v.Sort
+	}
+	return Value{K: v.K, T: v.T, Sort: v.Sort, S: x.d.fresh(name, sort)}
 }
 
 // bumpAlloc: a callee may allocate; the allocation counter moves to an
@@ -264,6 +367,9 @@ func (x *Exec) applyContract(st *State, fr *Frame, c *FuncContract, key string, 
 		x.usedContracts[key] = true
 	}
 	names := paramNames(sig, fn)
+	if fn == nil && len(args) == sig.Params().Len() {
+		names = names[1:] // no receiver (function variable)
+	}
 	env := &SpecEnv{x: x, st: st, old: st, names: map[string]Value{}, pkg: x.pkgOfKey(key, fn), fr: nil}
 	for i, n := range names {
 		if i < len(args) && n != "" && n != "_" {
@@ -328,6 +434,12 @@ func (x *Exec) applyAssigns(st *State, env *SpecEnv, c *FuncContract, args []Val
 	for _, a := range c.Assigns {
 		switch a.Kind {
 		case "nothing":
+		case "ghost":
+			old, ok := st.ghost[a.Heap]
+			if !ok {
+				unsupported("assigns ghost %s: undeclared ghost variable", a.Heap)
+			}
+			st.ghost[a.Heap] = x.freshLike(st, old, "gh."+a.Heap)
 		case "all":
 			for _, name := range heapNames(st.heaps) {
 				st.heaps[name] = x.d.fresh("hv."+name, x.heapSorts[name])
